@@ -131,3 +131,20 @@ Theorem to_int_base10_exact : forall s v,
   mod_to_int_base s 10 = Some v <-> (decimal_numeral (cstr s) v /\ in64 v /\ v <> YR_UNDEFINED).
 Proof. exact to_int_base10_exact_lemma. Qed.
 Print Assumptions to_int_base10_exact.
+
+(* math.monte_carlo_pi(offset, length): the counts (groups, hits) the loop computes are those of the addressed
+   bytes taken in groups of six from the start of the range - for any block structure; with
+   addressed_bytes_exact_partition they do not depend on how contiguous memory is cut into blocks.  Only
+   fabs((4.0 * hits / groups - PI) / PI) is left to the correspondence. *)
+Theorem monte_carlo_data_exact : forall fixd bs off len,
+  data_monte_carlo fixd bs off len = option_map mc_counts (addressed fixd bs off len).
+Proof. exact data_monte_carlo_exact. Qed.
+Print Assumptions monte_carlo_data_exact.
+
+Theorem monte_carlo_counts_spec : forall l, mc_counts l = mc_spec l.
+Proof. exact mc_counts_spec. Qed.
+Print Assumptions monte_carlo_counts_spec.
+
+Theorem monte_carlo_group_count : forall l, fst (mc_spec l) = N.of_nat (length l / 6).
+Proof. exact (fun l => mc_spec_count (length l) l (le_n _)). Qed.
+Print Assumptions monte_carlo_group_count.
